@@ -1,6 +1,6 @@
 (* Checker evaluated by vm_compute on the correspondence cases of C13 (harness/c13.py).  Definitions only. *)
 From Coq Require Import List ZArith Bool Arith.
-Require Import Styles.
+Require Import Styles Stylespart Stylesops Stylesinvb.
 Import ListNotations.
 Open Scope Z_scope.
 
@@ -44,7 +44,7 @@ Inductive cstep :=
 (* 1 wrong container | 2 uniqueness lost | 3 not found again | 4 something else changed / lost | 5 generated name
    collides | 6 other document changed by merge | 7 merge is not the union with the other winning | 8 reload differs
    | 11 exception on an input of the domain | 12 valid insertion refused | 9 exact model step differs (fidelity) *)
-Definition chk (c : cstep) : nat :=
+Definition chk0 (c : cstep) : nat :=
   match c with
   | SInsert pre s name_arg automatic default impl found =>
     let model := insert_style T false pre s name_arg automatic default in
@@ -115,6 +115,9 @@ Definition chk (c : cstep) : nat :=
                                     | Some e => (eid e =? eid_final) && opt_eqb sname_eqb (ename e) (Some nm)
                                     | None => false end
                       | None => false end) then 3%nat
+        else if match found with
+                | Some loc => match entry_at (sstore post) loc with Some e => etag e =? t_default T | None => false end
+                | None => false end then 1%nat            (* a style:default-style element put into automatic-styles *)
         else if existsb (opt_eqb sname_eqb (Some nm)) (all_names (sstore pre)) then 5%nat
         else if negb (forallb (fun k => is_prefix (slot_list (sstore pre) k) (slot_list (sstore post) k)) (seq 0 8)) then 4%nat
         else match set_table_displayed T false pre tidx eid_created eid_final with
@@ -148,5 +151,25 @@ Definition chk (c : cstep) : nat :=
     else if forallb (fun q => let '(f, n, before, after) := q in
                               match doc_get_style T post f n with Ok r => opt_eqb loc_eqb r after | Err => false end) lookups
          then 0%nat else 9%nat
+  end.
+
+(* are the hypotheses of the theorems (Inv2, mergeable) met by the implementation's pre-state, and is Inv2 still there
+   afterwards ?  13 = Inv2 held before and not after; 20 = everything agreed but the pre-state is outside Inv2
+   (both are notes for the evidence, not alarms) *)
+Definition pre_post (c : cstep) : bool * option store :=
+  match c with
+  | SInsert pre _ _ _ _ impl _ => (inv2b T pre, match impl with Done (post, _) => Some post | _ => None end)
+  | SMerge self other impl => (inv2b T self && inv2b T other && mergeableb T other,
+                               match impl with Done (post, _) => Some post | _ => None end)
+  | SDelete pre impl => (inv2b T pre, match impl with Done (post, _) => Some post | _ => None end)
+  | STable pre _ _ _ impl _ => (inv2b T (sstore pre), match impl with Done post => Some (sstore post) | _ => None end)
+  | SPageBreak pre _ _ _ impl _ => (inv2b T pre, match impl with Done post => Some post | _ => None end)
+  | SReload pre post _ => (inv2b T pre, Some post)
+  end.
+Definition chk (c : cstep) : nat :=
+  match chk0 c with
+  | O => let '(ok, post) := pre_post c in
+         if ok then match post with Some p => if inv2b T p then 0%nat else 13%nat | None => 0%nat end else 20%nat
+  | n => n
   end.
 End Chk.
